@@ -198,6 +198,9 @@ int read_macho(
     return -1;
   }
 
+  // Sizes and counts taken from the file can't be bigger than the file.
+  const uint32_t file_length = file.get_file_length();
+
   macho_header.magic_number = file.get_int32();
 
   if (macho_header.magic_number != 0xfeedface &&
@@ -238,6 +241,12 @@ int read_macho(
       break;
   }
 
+  if (macho_header.load_command_count > file_length)
+  {
+    printf("Error: Mach-O load command count is bigger than the file.\n");
+    return -1;
+  }
+
   for (uint32_t i = 0; i < macho_header.load_command_count; i++)
   {
     macho_load_command.type = file.get_int32();
@@ -252,12 +261,24 @@ int read_macho(
         // LC_SEGMENT_64
         macho_read_segment_load(macho_segment_load, file, bits);
 
+        if (macho_segment_load.section_count > file_length)
+        {
+          printf("Error: Mach-O section count is bigger than the file.\n");
+          return -1;
+        }
+
         for (uint32_t n = 0; n < macho_segment_load.section_count; n++)
         {
           macho_read_section(macho_section, file, bits);
 
           if (strcmp(macho_section.section_name, "__text") == 0)
           {
+            if (macho_section.size > file_length)
+            {
+              printf("Error: Mach-O section is bigger than the file.\n");
+              return -1;
+            }
+
             long marker = file.tell();
             file.set(macho_section.offset);
 
@@ -278,6 +299,12 @@ int read_macho(
       {
         // LC_SYMTAB
         macho_read_symtab(macho_symtab, file);
+
+        if (macho_symtab.symbol_count > file_length)
+        {
+          printf("Error: Mach-O symbol count is bigger than the file.\n");
+          return -1;
+        }
 
         uint32_t strtab = macho_symtab.string_table_offset;
         char name[128];
